@@ -64,6 +64,33 @@ def replay(rp):
         print(json.dumps(e)[:600])
 
 
+def apalache_inductive(wd):
+    """Init => IndInv (length 0) and IndInv /\\ Next => IndInv' (length 1) for spec/TcpFramingInd.tla.  The outcome does not
+    depend on the code under test: a failure here is a defect of the specification (tool error), an unavailable or slow
+    Apalache is recorded and nothing more."""
+    import subprocess
+    if shutil.which("apalache-mc") is None:
+        return {"ran": False, "why": "apalache-mc not on PATH"}
+    out_dir = os.path.join(wd, "apalache")
+    res = {}
+    for name, args in (("base", ["--init=Init", "--length=0"]), ("step", ["--init=IndInit", "--length=1"])):
+        t0 = time.time()
+        try:
+            p = subprocess.run(["apalache-mc", "check", "--cinit=ConstInit", "--inv=IndInv", "--out-dir=" + out_dir] + args + ["TcpFramingInd.tla"],
+                               cwd=os.path.join(SPEC, "apalache"), capture_output=True, text=True, timeout=600)
+        except subprocess.TimeoutExpired:
+            return {"ran": False, "why": "apalache-mc timed out in the %s case" % name}
+        txt = p.stdout + p.stderr
+        if "The outcome is: NoError" in txt:
+            res[name] = {"outcome": "NoError", "t": round(time.time() - t0, 1)}
+        elif "invariant" in txt and "violated" in txt:
+            raise ToolError("TcpFramingInd: IndInv is not inductive (%s case) - the specification is wrong:\n%s" % (name, txt[-1500:]))
+        else:
+            return {"ran": False, "why": "apalache-mc did not finish cleanly in the %s case: %s" % (name, txt[-300:])}
+    shutil.rmtree(out_dir, ignore_errors=True)
+    return {"ran": True, "module": "apalache/TcpFramingInd.tla", "bounds": "Radix 4, buffer <= 14 bytes, framed history <= 8 bytes, chunk <= 6 bytes, any digit content", **res}
+
+
 def run(pid, tier, seed):
     rep = Report(pid, tier, seed, "model_checking")
     wd = workdir("tcp")
@@ -307,6 +334,9 @@ def run(pid, tier, seed):
         validated += gi - pending_from
         pending_from = nxt
     sample = {"frames": [len(f) for f in hist[0][1]], "steps": [(s["a"], len(s.get("bytes", []))) for s in hist[0][0]["steps"][:12]]}
+    # unbounded-history half of the argument: `pushed = framed \o buf` is an inductive invariant of Push/Pull (Apalache;
+    # any buffer content up to the bounded lengths, not only states reachable within a bounded number of steps)
+    rep.add_cov(apalache_inductive_invariant=apalache_inductive(wd))
     # the framing end to end: STUN over two byte streams (StunTcpExchange.tla)
     from tcpxcheck import tcpx_binding
     xstats = tcpx_binding(pid, tier, seed, wd, rep)
